@@ -21,7 +21,7 @@ DirsPool   == IF Rich THEN {<<0>>, <<1>>, <<0, 1>>} ELSE {<<0>>, <<0, 1>>}
 SIds       == 0..MaxS
 TIds       == 0..MaxT
 Keys       == {"k1"}
-AttrVals   == {0, 1}
+AttrVals   == IF Rich THEN {0, 1} ELSE {0}
 Names      == {"x"}
 DF  == [c |-> "float", g |-> 0, k |-> 0]
 DC0 == [c |-> "cat", g |-> 0, k |-> 0]
@@ -29,14 +29,14 @@ DistPool   == {DF, DC0}
 ParamVals  == {3}
 Steps      == {"0", "1"}
 IVals      == IF Rich THEN {0, NaNV} ELSE {NaNV}
-ValuesPool == IF Rich THEN {NoneV, <<0>>, <<3>>, <<PosInfV>>} ELSE {NoneV, <<0>>, <<3>>}
+ValuesPool == IF Rich THEN {NoneV, <<0>>, <<3>>, <<PosInfV>>} ELSE {NoneV, <<0>>}
 Templates  ==
   { [has |-> 0],
     [has |-> 1, state |-> "WAITING", values |-> NoneV, params |-> EmptyMap, ua |-> [k1 |-> 1], sa |-> EmptyMap,
      iv |-> EmptyMap, ts |-> 0, tc |-> 0],
     [has |-> 1, state |-> "COMPLETE", values |-> <<0>>, params |-> [x |-> [d |-> DF, v |-> 3]], ua |-> EmptyMap,
      sa |-> [k1 |-> 0], iv |-> ("0" :> NaNV), ts |-> 1, tc |-> 2] }
-StatesPool == {<<"ALL">>, <<"WAITING">>, <<"COMPLETE", "RUNNING">>}
+StatesPool == IF Rich THEN {<<"ALL">>, <<"WAITING">>, <<"COMPLETE", "RUNNING">>} ELSE {<<"ALL">>, <<"COMPLETE", "RUNNING">>}
 Kinds      == {"trial", "trials", "studies", "sattr", "tattr", "best", "pareto"}
 
 Targets(g) ==
